@@ -140,7 +140,7 @@ class Ctx:
         m = re.search(r"Error: Invariant (\S+) is violated", out)
         if m:
             violated = m.group(1)
-        m2 = re.search(r"Error: Action property (\S+) is violated|Error: Temporal properties were violated|Error: Deadlock reached", out)
+        m2 = re.search(r"Error: Action property (\S+) is violated|Error: Temporal propert[^\n]*violated|Error: Deadlock reached", out)
         if m2 and not violated:
             violated = m2.group(0)
         ok = (rc == 0 and violated is None and "Model checking completed. No error has been found" in out) or \
@@ -236,7 +236,15 @@ class Ctx:
         m = re.search(r"Error: Invariant (\S+) is violated", out)
         if m:
             violated = m.group(1)
-        accepted = (hwm >= n and violated is None and "Error:" not in out.replace("Error: Postcondition", "X"))
+        # a TLC evaluation/parse error is a defect of the SPEC or of the trace encoding, never a rejection
+        spec_error = None
+        me = re.search(r"Error: TLC threw an unexpected exception|Error: Parsing or semantic analysis failed|"
+                       r"Error: The error occurred when TLC was evaluating|Error: Evaluating|java\.lang\.\w*(Exception|Error)|"
+                       r"Error: In evaluation|Error: Attempted to|Error: TLC encountered|Error: The invariant .* is not a valid", out)
+        if me:
+            spec_error = "\n".join([x for x in out.splitlines() if x.strip()][-25:])
+        accepted = (hwm >= n and violated is None and spec_error is None and
+                    "Error:" not in out.replace("Error: Postcondition", "X"))
         if "Postcondition" in out and "violated" in out and hwm < n:
             accepted = False
         gen, dist = self._parse_counts(out)
@@ -247,8 +255,10 @@ class Ctx:
                                        devs=list(devs)))
         self.log("T %s/%s: events=%d hwm=%d accepted=%s violated=%s devs=%s %.1fs" %
                  (spec, cfg, n, hwm, accepted, violated, list(devs), dt))
+        if spec_error:
+            self.save_text("T_%s_%s_error.out" % (spec, cfg), out[-20000:])
         return dict(accepted=accepted, hwm=hwm, length=n, out=out, violated=violated, rc=rc,
-                    timeout=(rc == -9))
+                    timeout=(rc == -9), spec_error=spec_error)
 
     # ------------------------------------------------------------------ Go harness
     def go_build(self, pkg, files, tags="verif", extra_overlay=None, timeout=1500):
@@ -378,6 +388,9 @@ class Ctx:
         ok = res["accepted"]
         if res["timeout"]:
             self.broken("trace validation %s timed out" % name)
+            return False
+        if res.get("spec_error"):
+            self.broken("trace spec %s raised a TLC error (spec/encoding defect, not a verdict):\n%s" % (module, res["spec_error"][-1500:]))
             return False
         if not ok and self.open_devs():
             res2 = self.tlc_trace(spec, module, cfg, tr, timeout=timeout, devs=self.open_devs(), extra_files=extra_files)
